@@ -69,6 +69,9 @@ SEMIRINGS = {
     "Q": (Qs, algebra.Q, lambda f: Qs(Fraction(f)), lambda v: v.score),
     "FloatFrac": (Float, algebra.Q, lambda f: Fraction(f), lambda v: v),
     "Float": (Float, algebra.Q, lambda f: float(f), lambda v: v),
+    # positive but extreme float weights (products of three underflow, a single weight is below agenda's 1e-12 stopping rule):
+    # only meaningful where the property is about *positivity* of weights (C01)
+    "FloatTiny": (Float, algebra.Q, lambda f: float(f) * 1e-140, lambda v: v),
     "Real": (Real, algebra.Q, lambda f: Real(float(f)), lambda v: v.score),
     "RealFrac": (Real, algebra.Q, lambda f: Real(Fraction(f)), lambda v: v.score),
     "Boolean": (Boolean, algebra.BOOL, lambda f: Boolean(f != 0), lambda v: v.score),
